@@ -26,14 +26,15 @@ NATIVE: Dict[str, Tuple[int, bool, str]] = {
 }
 BY_WIDTH = {w: [n for n, (s, _, _) in NATIVE.items() if s == w] for w in (1, 2, 4, 8)}
 
-SECTIONS = ("compiler_options", "imports", "constants", "string_constants", "aliases", "host_ids", "module_ids",
+SECTIONS = ("compiler_options", "metadata", "imports", "constants", "string_constants", "aliases", "host_ids", "module_ids",
             "struct_defs", "message_defs")
 
 
 def yaml_text(f: Dict[str, Any]) -> str:
     """f: section -> content.  struct_defs: name -> fields(dict | str); message_defs: name -> {"id":..,"fields":..}"""
     out: List[str] = []
-    for sec in SECTIONS:
+    # the sections of a file may be written in any order ("__order__": "reversed" = message_defs first, imports last)
+    for sec in (tuple(reversed(SECTIONS)) if f.get("__order__") == "reversed" else SECTIONS):
         v = f.get(sec)
         if v is None:
             continue
